@@ -17,7 +17,7 @@ DEADLINE = 300
 CHUNK = 2
 RULE = ("cases = MapSpec pipelines from vlib.mapgen (VERIF_SEED) whose sequential run matches the denotation; each is run "
         "under {map, map_async} x {ThreadPool(2-4), ProcessPool(2-3, fork), per-output executor dict with '' default, "
-        "default pool} x {file_array, dict, shared_memory_dict, per-output mix} with seeded per-call delays (0-3 ms) that "
+        "default pool, a thread pool attaching its own slow done-callbacks} x {file_array, dict, shared_memory_dict, per-output mix} with seeded per-call delays (0-3 ms) that "
         "shuffle completion order, and under a controlled executor that enumerates run/completion permutations (pi, sigma) "
         "of each generation's task batch (all permutations for batches <= 4 tasks, sampled beyond); monitors: every output "
         "and load_outputs == denotation, exactly-once call multiset per function from the cross-process call log, "
@@ -28,6 +28,18 @@ ASSUMPTIONS = ["oracle = vlib.mapgen.oracle (not 'whatever sequential returned')
                "schedules are explored by permutation of submission batches, injected delays and real pools, not all interleavings"]
 
 STOR = ["file_array", "dict", "shared_memory_dict", "mix"]
+
+
+class AuditedThreadPool(ThreadPoolExecutor):
+    """A thread pool that attaches its own (slow) done-callback to every future it hands out - as a monitoring or
+    bookkeeping executor would.  Callbacks of a future run after its waiters are woken, in registration order."""
+
+    def submit(self, fn, /, *args, **kwargs):
+        import time
+
+        fut = super().submit(fn, *args, **kwargs)
+        fut.add_done_callback(lambda f: time.sleep(0.003))
+        return fut
 
 
 def plan(tier, seed):
@@ -125,6 +137,9 @@ def run_cfg(v, case, env, exp_calls, scratch, entry, exname, st, idx, dseed, ord
             pipeline = mapgen.build_pipeline(case, log=log, fault=fault)
         if exname == "thread":
             ex = ThreadPoolExecutor(2 + idx % 3)
+            exs.append(ex)
+        elif exname == "audited":
+            ex = AuditedThreadPool(4)
             exs.append(ex)
         elif exname == "process":
             ex = ProcessPoolExecutor(2 + idx % 2, mp_context=ctx)
@@ -262,10 +277,11 @@ def run_case(desc):
                     for st in STOR:
                         cfgs.append((entry, exname, st))
                 cfgs.append((entry, "dictmix", STOR[i % 4]))
+                cfgs.append((entry, "audited", STOR[(i + 1) % 4]))
             cfgs.append(("map", "default", STOR[i % 3]))
             # every case runs a rotating subset (all 19 configurations are covered across cases)
             rng = random.Random(f"c03:{desc['seed']}:{i}")
-            chosen = rng.sample(cfgs, 7)
+            chosen = rng.sample(cfgs, 8)
             for dseed in desc["delay_seeds"]:
                 for entry, exname, st in chosen:
                     run_cfg(v, case, env, exp_calls, scratch, entry, exname, st, i, dseed, orders)
@@ -289,7 +305,7 @@ def finalize(agg, tier, seed):
     if c.get("distinct_permuted_schedules", 0) < 100:
         floors.append(f"only {c.get('distinct_permuted_schedules', 0)} distinct permuted schedules (< 100)")
     for entry in ("map", "map_async"):
-        for ex in ("thread", "process", "controlled"):
+        for ex in ("thread", "process", "controlled", "audited"):
             if c.get(f"runs:{entry}:{ex}", 0) < 10:
                 floors.append(f"runs:{entry}:{ex} = {c.get(f'runs:{entry}:{ex}', 0)} (< 10)")
     for ex in ("thread", "process"):
